@@ -218,6 +218,38 @@ Theorem C09_v1_acker_acked_confirmed :
 Proof. exact v1_acker_acked_confirmed. Qed.
 Print Assumptions C09_v1_acker_acked_confirmed.
 
+(* the feeding schedule: messages reach the acker node in groups, before or after the Ack() reply
+   that covers them, and the queue runs empty in between.  The worker's ack buffer survives the
+   idle period, so the schedule changes nothing: same end of Run, same acks and nacks as with all
+   messages queued first; only a message never handed over stays open instead of being nacked *)
+Theorem C09_v1_acker_schedule_independent :
+  forall fx (ph : list (list amsg)) acks script,
+    same_run (acker_feed fx ph acks script) (acker_worker fx (concat ph) acks script).
+Proof. exact v1_acker_schedule_independent. Qed.
+Print Assumptions C09_v1_acker_schedule_independent.
+
+Theorem C09_v1_acker_feed_no_panic_repaired :
+  forall (ph : list (list amsg)) (script : list areply), exists o, acker_feed_run true ph script = V1Ok o.
+Proof. exact v1_acker_feed_no_panic_repaired. Qed.
+Print Assumptions C09_v1_acker_feed_no_panic_repaired.
+
+Theorem C09_v1_acker_feed_acked_confirmed :
+  forall fx (ph : list (list amsg)) (script : list areply) st t i m,
+    acker_feed_run fx ph script = V1Ok (st, t) ->
+    nth_error (concat ph) i = Some m -> am_filtered m = false -> nth_error st i = Some SAcked ->
+    nth_error (ack_stream script) (unfiltered_before (concat ph) i) = Some (am_pos m, false).
+Proof. exact v1_acker_feed_acked_confirmed. Qed.
+Print Assumptions C09_v1_acker_feed_acked_confirmed.
+
+(* no wedge by a legal reply shape: the node is found waiting in Destination.Ack only while the
+   destination owes an ack - it sent fewer acks than unfiltered messages were handed to the node *)
+Theorem C09_v1_acker_waits_only_if_owed :
+  forall fx (ph : list (list amsg)) (script : list areply) st,
+    acker_feed_run fx ph script = V1Ok (st, ATErr true) ->
+    length (ack_stream script) < delivered_unf (concat ph) st.
+Proof. exact v1_acker_waits_only_if_owed. Qed.
+Print Assumptions C09_v1_acker_waits_only_if_owed.
+
 (* runSandbox: a panic of a built-in connector call becomes an error, a cancelled context detaches *)
 Theorem C09_sandbox_total :
   forall c : scall,
